@@ -181,6 +181,15 @@ TrRT ==
      /\ ObsOK(n, Ev.o)
   /\ UNCHANGED uni
 
+\* a sketch and its decoded copy after the same further updates: bit-identical estimate and bounds
+TrCmp ==
+  /\ IsEv("Cmp")
+  /\ On("C11") => (/\ Ev.same
+                   /\ obj[Ev.a].mode = obj[Ev.b].mode
+                   /\ IF obj[Ev.a].mode = "arr" THEN Regs(obj[Ev.a]) = Regs(obj[Ev.b])
+                      ELSE Coupons(obj[Ev.a]) = Coupons(obj[Ev.b]))
+  /\ UNCHANGED <<obj, uni>>
+
 TrUNew ==
   /\ IsEv("UNew")
   /\ uni' = Put(uni, Ev.id, NewUnion(Ev.lgmax))
@@ -228,7 +237,7 @@ TrUToSk3 ==
 \* a panic on a valid operation is never explainable
 TrPanic == IsEv("Panic") /\ FALSE /\ UNCHANGED <<obj, uni>>
 
-TNext == TrRun \/ TrNew \/ TrUpd \/ TrUpd3 \/ TrChk \/ TrLoad \/ TrRT \/ TrUNew \/ TrUUpd \/ TrUVal
+TNext == TrCmp \/ TrRun \/ TrNew \/ TrUpd \/ TrUpd3 \/ TrChk \/ TrLoad \/ TrRT \/ TrUNew \/ TrUUpd \/ TrUVal
          \/ TrUReset \/ TrUChk \/ TrUToSk3 \/ TrPanic
 TSpec == TInit /\ [][TNext]_tvars
 
